@@ -5,6 +5,7 @@
 
    Mirrors scrapli/channel/{base,sync,async}_channel.py as the code is in the worktree:
      read                    remove CR; carry over a trailing partial escape sequence; strip ANSI iff ESC present
+                             (no ESC in what was read: handed on verbatim, whatever 0x9b / 0x9d bytes it has)
      _read_until_input       strict mode: lower, drop BS, squash white space, substring test
      _process_read_buf       last [depth] bytes, partition at the first newline, fall back to the head
      _read_until_prompt / _read_until_explicit_prompt / get_prompt / send_input / send_inputs_interact
@@ -385,6 +386,17 @@ Definition script_reply (script : list reply) : nat -> bytes -> reply := fun k _
 
 Definition dev0 : dev := mkDev [] false Ready 0 [].
 Definition world0 (pending : bytes) (delivered : nat) : world := mkW pending delivered 0 [] dev0 [].
+
+(* one Channel.read on one transport chunk, as observed on the real read() by gen/gen_channel.py (_read_probes): what was
+   carried over before, the chunk the transport hands out; [ch_read] is to return [out] and to carry over [held].  The
+   ANSI pattern is applied only to a chunk that (after the hold-back) contains ESC: bytes 0x9b / 0x9d, which the pattern
+   would also start at, are ordinary UTF-8 continuation bytes and pass verbatim when no ESC was read. *)
+Definition probe_env : env := mkEnv (fun _ _ p => length p) [] [10] (fun _ _ => RPlain []).
+Definition read_probe_ok (c : cfg) (partial chunk out held : bytes) : bool :=
+  match ch_read c probe_env (mkW chunk 0 0 partial dev0 []) with
+  | Ok (b, w') => (beq b out && beq (w_partial w') held && beq (w_pending w') [])%bool
+  | _ => false
+  end.
 
 (* ---------------------------------------------------------------------------------------------- *)
 (* specification side: what "exactly the text the device printed" means *)
